@@ -638,10 +638,7 @@ class ActionCommand(Command):
                         unquote = True
                         break
             if unquote:
-                if "," in value:
-                    args += tools.to_list(value)
-                else:
-                    args.append(value.strip('"'))
+                args += tools.to_values(value)
                 continue
             args.append(value)
         return (self.name,) + tuple(args)
@@ -791,24 +788,12 @@ class EnvelopeCommand(TestCommand):
 
     def args_as_tuple(self):
         """Return arguments as a list."""
-        result = ("envelope", self.arguments["match-type"])
-        value = self.arguments["header-list"]
-        if isinstance(value, list):
-            # FIXME
-            value = "[{}]".format(",".join('"{}"'.format(item) for item in value))
-        if value.startswith("["):
-            result += (tools.to_list(value),)
-        else:
-            result += ([value.strip('"')],)
-        value = self.arguments["key-list"]
-        if isinstance(value, list):
-            # FIXME
-            value = "[{}]".format(",".join('"{}"'.format(item) for item in value))
-        if value.startswith("["):
-            result += (tools.to_list(value),)
-        else:
-            result = result + ([value.strip('"')],)
-        return result
+        return (
+            "envelope",
+            self.arguments["match-type"],
+            tools.to_values(self.arguments["header-list"]),
+            tools.to_values(self.arguments["key-list"]),
+        )
 
 
 class ExistsCommand(TestCommand):
@@ -823,12 +808,7 @@ class ExistsCommand(TestCommand):
         parser. Il faut uniformiser tout ça !!
 
         """
-        value = self.arguments["header-names"]
-        if isinstance(value, list):
-            value = "[{}]".format(",".join('"{}"'.format(item) for item in value))
-        if not value.startswith("["):
-            return ("exists", value.strip('"'))
-        return ("exists",) + tuple(tools.to_list(value))
+        return ("exists",) + tuple(tools.to_values(self.arguments["header-names"]))
 
 
 class TrueCommand(TestCommand):
@@ -849,18 +829,11 @@ class HeaderCommand(TestCommand):
 
     def args_as_tuple(self):
         """Return arguments as a list."""
-        if "," in self.arguments["header-names"]:
-            result = tuple(tools.to_list(self.arguments["header-names"]))
-        else:
-            result = (self.arguments["header-names"].strip('"'),)
-        result = result + (self.arguments["match-type"],)
-        if "," in self.arguments["key-list"]:
-            result = result + tuple(
-                tools.to_list(self.arguments["key-list"], unquote=False)
-            )
-        else:
-            result = result + (self.arguments["key-list"].strip('"'),)
-        return result
+        return (
+            tuple(tools.to_values(self.arguments["header-names"]))
+            + (self.arguments["match-type"],)
+            + tuple(tools.to_values(self.arguments["key-list"]))
+        )
 
 
 class BodyCommand(TestCommand):
@@ -890,15 +863,7 @@ class BodyCommand(TestCommand):
             self.arguments["body-transform"],
             self.arguments["match-type"],
         )
-        value = self.arguments["key-list"]
-        if isinstance(value, list):
-            # FIXME
-            value = "[{}]".format(",".join('"{}"'.format(item) for item in value))
-        if value.startswith("["):
-            result += tuple(tools.to_list(value))
-        else:
-            result += (value.strip('"'),)
-        return result
+        return result + tuple(tools.to_values(self.arguments["key-list"]))
 
 
 class NotCommand(TestCommand):
@@ -996,21 +961,13 @@ class CurrentdateCommand(TestCommand):
         result = ("currentdate",)
         result += (
             ":zone",
-            self.extra_arguments["zone"].strip('"'),
+            tools.unquote_string(self.extra_arguments["zone"]),
             self.arguments["match-type"],
         )
         if self.arguments["match-type"] in [":count", ":value"]:
-            result += (self.extra_arguments["match-type"].strip('"'),)
-        result += (self.arguments["date-part"].strip('"'),)
-        value = self.arguments["key-list"]
-        if isinstance(value, list):
-            # FIXME
-            value = "[{}]".format(",".join('"{}"'.format(item) for item in value))
-        if value.startswith("["):
-            result = result + tuple(tools.to_list(value))
-        else:
-            result = result + (value.strip('"'),)
-        return result
+            result += (tools.unquote_string(self.extra_arguments["match-type"]),)
+        result += (tools.unquote_string(self.arguments["date-part"]),)
+        return result + tuple(tools.to_values(self.arguments["key-list"]))
 
 
 class VacationCommand(ActionCommand):
